@@ -61,6 +61,8 @@ class CallMixin:
         f = e.func
         if isinstance(f, ast.Name):
             n = f.id
+            # in a specification a macro / spec function called by name is that macro even if the program has a local of the same name
+            if self.spec_mode and (n in self.defs or n in SPECFUNS or n in self.spec_ext) and not (n in p.env and n not in self.defs): return ('spec', n)
             if n in p.env: raise Undecided('call of local value ' + n)
             if n in self.ext_models: return ('model', self.ext_models[n])
             if n in self.stmt_models: return ('stmtmodel', self.stmt_models[n])
